@@ -9,16 +9,19 @@
 (* of deviation flags in DevChoices (the flags of findings recorded as known, all of them and all but one): the     *)
 (* harness classifies an observation as a known finding only if it equals the I-layer-with-deviation result.        *)
 EXTENDS Select, Json, IOUtils
-VARIABLE tid
+VARIABLES tid, rec      \* rec = the record being judged (kept in the state: the file is deserialised once)
 Doc == JsonDeserialize(IOEnv.TRACE_FILE)
 N == Len(Doc)
 ASSUME TLCSet(1, {}) /\ TLCSet(2, {})
-Obs == Doc[tid].o
+Obs == rec.o
 Ran(p) == p \in ToSet(Obs.ran)
 
-TInit == \E t \in 1..N : tid = t /\ InitCase(Doc[t].c)
-TNext == Next /\ UNCHANGED tid
-TSpec == TInit /\ [][TNext]_<<vars, tid>>
+\* one state per record and flag choice: the I-layer is run to its end as one value (RunFrom); nothing remains to be stepped
+Indexed == LET d == Doc IN {<<t, d[t]>> : t \in 1..Len(d)}
+TInit == \E pr \in Indexed : /\ tid = pr[1] /\ rec = pr[2] /\ case = rec.c /\ dev \in DevChoices /\ steps = Steps(case)
+                               /\ st = RunFrom(Init0(case), case, steps, 1) /\ pc = Len(steps) + 1
+TNext == FALSE /\ UNCHANGED <<vars, tid, rec>>
+TSpec == TInit /\ [][TNext]_<<vars, tid, rec>>
 
 AsNodes(ns) == [nodes |-> ns]
 P_err    == IF MustReject(case) THEN Obs.err # "" ELSE IF MayReject(case) THEN TRUE ELSE Obs.err = ""
@@ -57,7 +60,7 @@ Match == /\ Obs.err = st.err
 Judge == IF ~InDomain(case) THEN PrintT(<<"SKIP", ToJson([tid |-> tid])>>)
          ELSE IF AcceptP THEN (dev # {} \/ TLCSet(1, TLCGet(1) \cup {tid}))
          ELSE PrintT(<<"RUN", ToJson([tid |-> tid, dev |-> SetToSeq(dev), match |-> Match, why |-> Why])>>)
-Mark == Done => (Judge /\ (dev # {} \/ TLCSet(2, TLCGet(2) \cup {tid})))
+Mark == Judge /\ (dev # {} \/ TLCSet(2, TLCGet(2) \cup {tid}))
 \* every record has been judged under the intended design (dev = {}); otherwise the run is a machinery failure
 AllJudged == IF TLCGet(2) = 1..N THEN PrintT(<<"ACCEPTED", ToJson(SetToSeq(TLCGet(1)))>>)
              ELSE (PrintT(<<"UNJUDGED", ToJson(SetToSeq((1..N) \ TLCGet(2)))>>) /\ FALSE)
